@@ -4,6 +4,7 @@
 //!   vmc item   <Cxx> <tier> <idx>               child: one work item inside its own mount namespace + tmpfs jail
 //!   vmc replay <Cxx> <file>                     re-run exactly one recorded execution
 
+mod c16;
 mod capimc;
 mod ev;
 mod gen;
@@ -31,6 +32,7 @@ fn n_items(prop: &str, tier: &str) -> usize {
         "C14" => mutmc::n_items(prop, tier),
         "C09" => handlemc::n_items(tier),
         "C17" => capimc::n_items(tier),
+        "C16" => c16::n_items(tier),
         "C02" | "C03" | "C05" | "C10" | "C11" => sysprops::n_items(prop, tier),
         _ => 0,
     }
@@ -44,6 +46,7 @@ fn run_item(prop: &str, tier: &str, idx: usize, only: Option<&Value>) -> sys::MR
         "C14" => mutmc::run_item(prop, tier, idx, only),
         "C09" => handlemc::run_item(tier, idx, only),
         "C17" => capimc::run_item(tier, idx, only),
+        "C16" => c16::run_item(tier, idx, only),
         "C02" | "C03" | "C05" | "C10" | "C11" => sysprops::run_item(prop, tier, idx, only),
         _ => sys::mach(format!("no engine for {}", prop)),
     }
@@ -57,6 +60,7 @@ fn report(prop: &str, tier: &str) -> Report {
         "C14" => mutmc::report(prop, tier),
         "C09" => handlemc::report(tier),
         "C17" => capimc::report(tier),
+        "C16" => c16::report(tier),
         "C02" | "C03" | "C05" | "C10" | "C11" => sysprops::report(prop, tier),
         _ => unreachable!(),
     }
